@@ -25,3 +25,89 @@ def gen(tier, rng):
         for i, (line, kind) in enumerate(_auto.make_gen(prop, also=False)("quick", rng)):
             if i % k == 0 and not kind.endswith(".wild"):   # `.wild` = outside the valid domain: profile dependent by nature
                 yield (line, f"{prop}/{kind}")
+
+
+# ---------------------------------------------------------------------------------------------------------------------
+# thorough tier: a reduced workload under Miri (support for the "never reading out of bounds" clause; it is an
+# observation of the real code under an interpreter that checks every memory access, not a proof)
+
+import concurrent.futures as cf   # noqa: E402
+import os                        # noqa: E402
+import subprocess                # noqa: E402
+import cxlib as cx               # noqa: E402
+
+MIRI_SLOW = ("argon2.", "kdf.scrypt", "kdf.pbkdf2", "ed25519.", "x25519.", "ge.", "long.", "simd.", "hlen.", "fe.prog", "b32.",
+             "scalar.slide", "ktie.")
+
+
+def _miri_env(extra_flags=""):
+    return dict(os.environ, CARGO_TARGET_DIR=os.path.join(cx.CACHE, "target-miri"), CARGO_NET_OFFLINE="true",
+                RUSTFLAGS=f"--cfg {cx.GUARD} -A unexpected_cfgs",
+                MIRIFLAGS=("-Zmiri-disable-isolation " + extra_flags).strip())
+
+
+def _miri_run(lines, flags):
+    p = subprocess.run(["cargo", "+nightly", "miri", "run", "--offline", "-q", "--", "run"], cwd=cx.HARNESS,
+                       env=_miri_env(flags), input="".join(l + "\n" for l in lines), capture_output=True, text=True, timeout=3000)
+    out = [l for l in p.stdout.split("\n") if l != ""]
+    err = ""
+    if "Undefined Behavior" in p.stderr or p.returncode != 0:
+        i = p.stderr.find("error: Undefined Behavior")
+        err = p.stderr[i:i + 700] if i >= 0 else p.stderr[-500:]
+    return out, err
+
+
+def extra_checks(tier, rng, variants, broken, failing):
+    if tier != "thorough":
+        return {"miri": "not run in the quick tier"}
+    # one short case per (op, kind) class, cheap ops only, short lines only
+    seen, lines = set(), []
+    for line, kind in gen("quick", cx.Rng(20260928)):
+        op = line.split(" ")[0]
+        if line.startswith(MIRI_SLOW) or len(line) > 700 or kind.endswith(".wild"):
+            continue
+        key = (op, kind.split("/")[-1].split(".")[0])
+        if key in seen:
+            continue
+        seen.add(key)
+        lines.append(line)
+        if len(lines) >= 320:
+            break
+    want = cx.run_exec([cx.harness_bin("default"), "run"], lines)
+    shards = [list(range(i, len(lines), cx.NCPU)) for i in range(cx.NCPU)]
+    got = [None] * len(lines)
+    errors = []
+    with cf.ThreadPoolExecutor(max_workers=cx.NCPU) as ex:
+        futs = {ex.submit(_miri_run, [lines[i] for i in ix], "-Zmiri-tree-borrows"): ix for ix in shards if ix}
+        for f in cf.as_completed(futs):
+            ix = futs[f]
+            try:
+                out, err = f.result()
+            except Exception as e:  # noqa
+                out, err = [], f"miri did not run: {e}"
+            for j, i in enumerate(ix):
+                got[i] = out[j] if j < len(out) else None
+            if err:
+                k = len(out)
+                culprit = lines[ix[k]] if k < len(ix) else "?"
+                if "miri did not run" in err or "Undefined Behavior" not in err:
+                    errors.append({"machinery": err[:300]})
+                else:
+                    errors.append({"line": culprit, "error": err})
+                    failing.append({"line": culprit, "kind": "miri", "answers": {"miri": err[:600]},
+                                    "why": "Miri reports undefined behaviour (memory access / uninitialised / alignment) while executing this case"})
+    mism = 0
+    for i, l in enumerate(lines):
+        if got[i] is not None and got[i] != want[i]:
+            mism += 1
+            failing.append({"line": l, "kind": "miri", "answers": {"native": want[i], "miri": got[i]},
+                            "why": "the interpreted execution (Miri) returns different bytes than the native debug build"})
+    # information only: the experimental Stacked Borrows model (see DESIGN 14.9: read_*v_* derive a raw pointer from a
+    # one-element reference and walk the slice with it: no out-of-bounds access, but outside the tag's range under SB)
+    sb_lines = [l for l in lines if l.startswith(("hash.sha256", "hash.sha512", "hctx.sha1"))][:3] or lines[:3]
+    sb_out, sb_err = _miri_run(sb_lines, "")
+    return {"miri": {"cases": len(lines), "executed": sum(1 for g in got if g is not None), "mismatches": mism,
+                     "undefined_behaviour_reports": [e for e in errors if "line" in e][:5],
+                     "machinery_problems": [e for e in errors if "machinery" in e][:3],
+                     "aliasing_model": "tree borrows (-Zmiri-tree-borrows)",
+                     "stacked_borrows_information_only": (sb_err[:300] if sb_err else "clean on the sampled hash cases")}}
